@@ -53,6 +53,7 @@ type c12Scn struct {
 	Signal        string       `json:"signal"`                    // TERM | INT | USR2 | DIRECT (TarsServer.Shutdown called with a context of GraceMs)
 	QuietMs       int          `json:"quiet_ms,omitempty"`        // the non-fresh connections are left quiet this long before the trigger
 	ReadTimeoutMs int          `json:"read_timeout_ms,omitempty"` // server readtimeout (0 = framework default: none)
+	Race          string       `json:"race,omitempty"`            // "read-then-count": connection 0's receive loop is held between Read and numInvoke++ (yield hook) while the poller closes it
 	SmallBuf      bool         `json:"small_buf,omitempty"`       // 64 KB server send buffer: a multi-megabyte response blocks in Write until the client reads
 	Phase         string       `json:"phase"`                     // "read": trigger once the server has read every Pre request; "sent": right after the writes
 	Late          bool         `json:"late"`                      // open one more connection after the listener went down and send a request on it
@@ -652,6 +653,28 @@ threads=1
 		}()
 	} else {
 		syscall.Kill(os.Getpid(), sig)
+	}
+	if scn.Race == "read-then-count" {
+		// the schedule of Props/C12.v race_read_then_count: connection 0 (quiet, idle timestamp stale) sends one more
+		// request; its receive loop is held after Read returned, before numInvoke++; the poller's first round sees
+		// numInvoke = 0 and closes the connection; then the receive loop goes on
+		r := len(scn.Conns[0].Pre)
+		time.Sleep(100 * time.Millisecond)
+		transport.VerifC12ArmBeforeCount()
+		log.add("send", 0, r)
+		if _, err := conns[0].Write(c12Frame(0, r, 0, 0)); err != nil {
+			finish("write: " + err.Error())
+		}
+		select {
+		case <-transport.VerifC12ReachedBeforeCount():
+		case <-time.After(2 * time.Second):
+			finish("race scenario: the receive loop did not reach the yield point")
+		}
+		select {
+		case <-rdone[0]: // the client saw EOF: the poller has closed the connection
+		case <-time.After(3 * time.Second):
+		}
+		transport.VerifC12ResumeBeforeCount()
 	}
 	for i, cs := range scn.Conns {
 		if gates[i] != nil && cs.ReadDelayMs > 0 {
